@@ -76,7 +76,10 @@ Inductive c06_case :=
 (* URL(t) = r and the two fixed-point experiments *)
 | KParse (t : text) (o : list ora) (r : res url_obs) (f1 f2 m1 m2 : res text)
 (* find_all_links(t) returned n items (it must not raise) *)
-| KLinks (t : text) (n : res N).
+| KLinks (t : text) (n : res N)
+(* spec validation (not about boltons): urllib.parse.urlsplit(t) = (scheme, netloc, path, query, fragment),
+   '' for an absent part, compared with the Spec's Appendix-B split *)
+| KSplit (t : text) (sch au path q f : text).
 
 (* ---- comparing the model with the implementation's observations ----------------------- *)
 Definition observe (T : tables) (u : url) : url_obs :=
@@ -161,6 +164,12 @@ Definition c06_verdict (c : c06_case) : verdict :=
      end,
      parse_ok t r f1 f2 m1 m2,
      false)
+  | KSplit t sch au path q f =>
+    let '(s', a', p', q', f') := rfc_split t in
+    (true,
+     text_eqb (opt_text s') sch && text_eqb (opt_text a') au && text_eqb p' path &&
+     text_eqb (opt_text q') q && text_eqb (opt_text f') f,
+     false)
   | KLinks t n =>
     (* find_all_links wraps URL() in `except URLParseError`; URL() raises nothing else (C06_total) *)
     (match n with Ok _ => true | Raise _ => false end,
@@ -191,4 +200,7 @@ Definition c06_explain (c : c06_case) :=
     ([mf1; m_render O true (m_reparse O true mf1); mm1; m_render O false (m_reparse O false mm1);
       MOk (if wf_ref true t then [1] else [0])], [m_obs u])
   | KLinks t n => ([], [])
+  | KSplit t sch au path q f =>
+    let '(s', a', p', q', f') := rfc_split t in
+    ([MOk (opt_text s'); MOk (opt_text a'); MOk p'; MOk (opt_text q'); MOk (opt_text f')], [])
   end.
